@@ -290,6 +290,18 @@ func (a Action) SplitP() Action {
 	return a.split(true)
 }
 
+// runeOffset returns the byte offset of the rune with given index (shlex tokens are indexed by rune).
+func runeOffset(s string, index int) int {
+	count := 0
+	for offset := range s {
+		if count == index {
+			return offset
+		}
+		count++
+	}
+	return len(s)
+}
+
 func (a Action) split(pipelines bool) Action {
 	return ActionCallback(func(c Context) Action {
 		tokens, err := shlex.Split(c.Value)
@@ -307,7 +319,7 @@ func (a Action) split(pipelines bool) Action {
 
 		action := a
 		originalValue := c.Value
-		prefix := originalValue[:tokens.Words().CurrentToken().Index]
+		prefix := originalValue[:runeOffset(originalValue, tokens.Words().CurrentToken().Index)]
 		c.Args = context.Args
 		c.Parts = []string{}
 		c.Value = context.Value
@@ -315,7 +327,7 @@ func (a Action) split(pipelines bool) Action {
 		if pipelines { // support redirects
 			if len(tokens) > 1 && tokens[len(tokens)-2].WordbreakType.IsRedirect() {
 				LOG.Printf("completing files for redirect arg %#v", tokens.Words().CurrentToken().Value)
-				prefix = originalValue[:tokens.CurrentToken().Index]
+				prefix = originalValue[:runeOffset(originalValue, tokens.CurrentToken().Index)]
 				c.Value = tokens.CurrentToken().Value
 				action = ActionFiles()
 			}
